@@ -116,7 +116,7 @@ GUARDED = [
 SAFE_ORDER = [
     (r"::(clear|truncate)$", r"^drop_in_place<\[T\]>$", "length is lowered before the drop (C06.R1)"),
     (r"^polyfill::non_null::truncate$", r"^drop_in_place<\[T\]>$", "length is lowered before the drop (C06.R1)"),
-    (r"::generic_extend_from_within_clone$", r"^clone$", "each clone is written and counted before the next clone runs"),
+    (r"::generic_extend_from_within_clone$", r"^clone$", "each clone is written and counted before the next clone runs (verified by C06.R6)"),
     (r"^bump_vec::splice::<impl bump_vec::drain::Drain<'_, T, A>>::fill$", r"^next$", "the vector's length hides the gap while the iterator runs"),
     (r"ExtractIf<'_, T, F> as core::iter::Iterator>::next$", r"^call_mut$", "index advanced after the predicate (C06.R2b)"),
     (r"^polyfill::iter::partition_in_place$", r".*", "swap-based: the slice is valid at every callback"),
@@ -377,6 +377,28 @@ def r5_double_accounting(ctx, P):
     ctx.floor(R, "drops of owning locals examined", n, 10)
 
 
+def r6_counted_per_iteration(ctx, P):
+    R = "C06.R6"
+    ctx.rule(R, "loops that write the result of user code (Clone::clone) into the spare capacity count each element before the "
+                "next user call: every path from the clone call back to itself passes a length update (inc_len / set_len / "
+                "push_unchecked / store to len); otherwise a panicking clone leaves written elements outside the length (never dropped)")
+    n = 0
+    for b in P.fn_bodies():
+        if not re.search(r"::generic_extend_from_within_clone$", b.path):
+            continue
+        clones = [(s_, t) for s_, t in b.calls() if t["f"].get("path") == "core::clone::Clone::clone" and b.can_reach(s_, s_, cleanup=False)]
+        lens = [s_.bb for s_, t in b.calls() if t["f"].get("name") in ("inc_len", "set_len", "push_unchecked", "push_mut_unchecked")]
+        lens += [s_.bb for s_, st in b.assigns() if st["p"]["p"] and isinstance(st["p"]["p"][-1], dict) and st["p"]["p"][-1].get("n") == "len"]
+        for k, (cs, ct) in enumerate(clones):
+            n += 1
+            ok, _ = b.must_pass(cs, lens, exits=(cs.bb,), cleanup=False)
+            ctx.inst(R, b.path, ok, "each clone is written and counted before the next clone runs" if ok else
+                     "a path leads from one clone call to the next without updating the length: if the second clone panics the "
+                     "first one's result has been written but is not part of the vector - it is never dropped", where=b.where(cs),
+                     site=f"clone loop #{k} counts per iteration")
+    ctx.floor(R, "clone loops in extend_from_within_clone", n, 6)
+
+
 def run(ctx, progs):
     ctx.assume("rustc's drop elaboration: a moved value is not dropped again; unwind edges and drop flags are as in MIR")
     ctx.assume("user code = calls of foreign-trait methods on type parameters (closures, Clone, PartialEq, Iterator) and drops of "
@@ -389,4 +411,5 @@ def run(ctx, progs):
         r3_handover(ctx, P)
         r4_owners_drop(ctx, P)
         r5_double_accounting(ctx, P)
+        r6_counted_per_iteration(ctx, P)
     ctx.config = None
